@@ -3,6 +3,7 @@ import Abyss.Props.C03
 import Abyss.Props.RaBufP
 import Abyss.Props.GenCorollaries
 import Abyss.Props.GenCorollaries2
+#print axioms Abyss.C02_generated_reopen
 #print axioms Abyss.C07_generated_bucket_independent
 #print axioms Abyss.openMap_reopen
 #print axioms Abyss.openMap_existing
